@@ -68,6 +68,32 @@ def pwOracle (pws : List Bytes) (impl : String) (specOn : List Bytes → String)
 
 def cmp (model impl : String) : String := if model = impl then "ok" else "fail:differs-from-reference"
 
+def handleStr (op r k num g d impl : String) : String × String :=
+  let bad := ("bad-request", "na")
+  match r.toNat?, B k, num.toNat?, g.toNat?, B d with
+  | some r, some k, some num, some g, some d =>
+    match op with
+    | "decstr" => let m := "ok:" ++ H (decryptString r k num g d); (m, cmp m impl)
+    | "decaes" => let m := okHex (decryptAes r k num g d); (m, cmp m impl)
+    | "encstr" | "encaes" =>
+      if r ≤ 3 then
+        if op = "encaes" then ("err", "na")
+        else let m := "ok:" ++ H (rc4 (objKey k num g false) d); (m, cmp m impl)
+      else
+        match aesObjKey r k num g with
+        | none => (if op = "encstr" then "ok:-" else "err", "na")
+        | some _ =>
+          -- random IV: the reference decryptor (Algorithm 1 / 1.A) must give the input back
+          match B (impl.drop 3).toString with
+          | some c =>
+            let cfm := if r = 4 then 2 else 3
+            if impl.startsWith "ok:" ∧ decryptData cfm k num g c = some d ∧
+               c.length = 16 + (d.length / 16 + 1) * 16 then (impl, "ok")
+            else ("spec-mismatch", "fail:reference-decryptor-does-not-recover-the-plaintext")
+          | none => ("spec-mismatch", "fail:unparsable")
+    | _ => bad
+  | _, _, _, _, _ => bad
+
 def parseBits (s : String) : Option (List Bool) :=
   if s.length = 8 then some (s.toList.map (· = '1')) else none
 def showBits (l : List Bool) : String := String.ofList (l.map fun b => if b then '1' else '0')
@@ -91,6 +117,8 @@ def handle (req impl : String) : String × String :=
   | ["aes", mode, k, iv, d] =>
     match B k, B iv, B d with
     | some k, some iv, some d =>
+      -- `AesKey::new_128/new_256` reject the key before any other check
+      if k.length ≠ 16 ∧ k.length ≠ 32 then ("err:keylen", "na") else
       let m := match mode with
         | "cbce" => showAes (aesEncryptCbc k iv d)
         | "cbcd" => showAes (aesDecryptCbc k iv d)
@@ -118,6 +146,7 @@ def handle (req impl : String) : String × String :=
       (H (computeOwnerHash r n op up), if r ≤ 4 then pwOracle [op, up] impl f else "na")
     | _, _, _, _ => bad
   | [op, r, n, up, o, p, id] =>
+    if op = "encstr" ∨ op = "decstr" ∨ op = "encaes" ∨ op = "decaes" then handleStr op r up o p id impl else
     match r.toNat?, n.toNat?, B up, B o, p.toNat?, optId id with
     | some r, some n, some up, some o, some p, some id =>
       match op with
@@ -148,13 +177,13 @@ def handle (req impl : String) : String × String :=
     | some r, some n, some op, some o, some _p, some _id, some u =>
       if r ≤ 4 then
         let m := okBool (some (validateOwnerPasswordLegacy r n op o))
-        -- Algorithm 7 (a)–(b) + Algorithm 3: `o` was made from this owner password iff
-        -- re-encrypting the recovered padded user password gives `o` back
-        let rec32 := alg7recover r n op o
-        let k := ownerKey r n op
-        let again := if r ≥ 3 then rc4Chain k (rc4 k rec32) else rc4 k rec32
-        let spec := decide (again = o.take 32 ∧ o.length ≥ 32)
-        (m, if spec = (impl = "true") then "ok" else "fail:owner-password-of-this-O-entry-rejected")
+        -- Algorithm 7 on the same /O, /U, /P, /ID: the owner password is authentic iff the user
+        -- password recovered from /O passes Algorithm 6
+        let spec : Bool := match u with
+          | some u => (alg7 r n op o u _p (_id.getD []) true).isSome
+          | none => false
+        (m, if u.isNone then "na" else if spec = decide (impl = "true") then "ok"
+            else if spec then "fail:authentic-owner-password-rejected" else "fail:owner-password-accepted-that-algorithm-7-refuses")
       else
         let m := match u with
           | none => "err"
@@ -168,30 +197,6 @@ def handle (req impl : String) : String × String :=
     match B k, num.toNat?, g.toNat? with
     | some k, some num, some g => let m := H (objKey k num g false); (m, cmp m impl)
     | _, _, _ => bad
-  | [op, r, _n, k, num, g, d] =>
-    match r.toNat?, B k, num.toNat?, g.toNat?, B d with
-    | some r, some k, some num, some g, some d =>
-      match op with
-      | "decstr" => let m := "ok:" ++ H (decryptString r k num g d); (m, cmp m impl)
-      | "decaes" => let m := okHex (decryptAes r k num g d); (m, cmp m impl)
-      | "encstr" | "encaes" =>
-        if r ≤ 3 then
-          if op = "encaes" then ("err", "na")
-          else let m := "ok:" ++ H (rc4 (objKey k num g false) d); (m, cmp m impl)
-        else
-          match aesObjKey r k num g with
-          | none => (if op = "encstr" then "ok:-" else "err", "na")
-          | some _ =>
-            -- random IV: the reference decryptor (Algorithm 1 / 1.A) must give the input back
-            match B (impl.drop 3).toString with
-            | some c =>
-              let cfm := if r = 4 then 2 else 3
-              if impl.startsWith "ok:" ∧ decryptData cfm k num g c = some d ∧
-                 c.length = 16 + (d.length / 16 + 1) * 16 then (impl, "ok")
-              else ("spec-mismatch", "fail:reference-decryptor-does-not-recover-the-plaintext")
-            | none => ("spec-mismatch", "fail:unparsable")
-      | _ => bad
-    | _, _, _, _, _ => bad
   | ["h2b", p, s, u] =>
     match B p, B s, B u with
     | some p, some s, some u =>
@@ -262,7 +267,7 @@ def handle (req impl : String) : String × String :=
       else match aesEcbDec k c with
         | some d =>
           if impl.startsWith "ok:" ∧ c.length = 16 ∧ d.take 12 = (permsPlain p (em = "1") []).take 12 ∧
-             alg13 k c = some (le32OfNat p, em = "1") then (impl, "ok")
+             alg13 k c = some (le32OfNat p, decide (em = "1")) then (impl, "ok")
           else ("spec-mismatch", "fail:Perms-is-not-Algorithm-10")
         | none => ("spec-mismatch", "fail:unparsable")
     | _, _, _ => ("spec-mismatch", "fail:unparsable")
